@@ -311,8 +311,17 @@ func (in *Interp) jvalOf(v Value, t types.Type) *JVal {
 				if parts[0] != "" {
 					name = parts[0]
 				}
-				if len(parts) > 1 {
-					panic(unsupported("json struct tag options"))
+				omit := false
+				for _, o := range parts[1:] {
+					switch o {
+					case "omitempty":
+						omit = true
+					default:
+						panic(unsupported("json struct tag option " + o))
+					}
+				}
+				if omit && in.jsonEmpty(st[i]) {
+					continue
 				}
 			}
 			j.keys = append(j.keys, name)
@@ -333,6 +342,42 @@ func (in *Interp) jvalOf(v Value, t types.Type) *JVal {
 		return in.jvalOf(iv.v, iv.t)
 	}
 	panic(unsupported("json.Marshal of " + typeString(t)))
+}
+
+// jsonEmpty: encoding/json's notion of an empty value for omitempty (false, 0, nil pointer or
+// interface, empty array / slice / map / string); symbolic scalars fork.
+func (in *Interp) jsonEmpty(v Value) bool {
+	switch x := v.(type) {
+	case nil:
+		return true
+	case Str:
+		return len(x.elems) == 0
+	case Slice:
+		return len(x.v) == 0
+	case Array:
+		return len(x) == 0
+	case MapRef:
+		return x.m == nil || len(x.m.ents) == 0
+	case Ptr:
+		return x.p == nil
+	case Iface:
+		return x.t == nil
+	case *Term:
+		var zero *Term
+		switch {
+		case x.IsBool():
+			zero = in.tt.Not(x)
+		case x.w == SortFP:
+			zero = in.tt.FpCmp(OFpEq, x, in.tt.FPConst(0))
+		default:
+			zero = in.tt.Eq(x, in.tt.BV(x.w, 0))
+		}
+		if zero.IsConst() {
+			return zero == in.tt.T
+		}
+		return in.path.Branch(zero)
+	}
+	return false
 }
 
 // parseRope turns JSON text (concrete, or blanks around one token) into a tree.
